@@ -307,7 +307,8 @@ func runC09(c *Check) {
 				n1++
 				c.Touch(fn)
 				p := fn.Params[pi]
-				g := lowerBoundEdge(func(v ssa.Value) bool { return v == ssa.Value(p) }, 0)
+				// the test may be on the parameter or on the value derived from it that is actually divided
+				g := lowerBoundEdge(func(v ssa.Value) bool { return v == ssa.Value(p) || v == rem.X || sameExpr(v, rem.X) }, 0)
 				okG, w := mustPass(in, g)
 				c.Decide(okG, "R1", c.P.Key(fn)+"#index-by-remainder-of-"+p.Name(), in.Pos(), "bounds edge-cutset", w,
 					"index height%N reachable only behind height >= 0",
